@@ -1423,6 +1423,7 @@ where
         }
         let mut events = Vec::new();
         let rc = packet.return_code();
+        let session_present = packet.session_present();
         events.push(GenericEvent::RequestSendPacket {
             packet: packet.into(),
             release_packet_id_if_send_error: None,
@@ -1435,6 +1436,9 @@ where
         }
 
         self.status = ConnectionStatus::Connected;
+        if !session_present {
+            self.clear_store_related();
+        }
         events.extend(self.send_stored());
         self.send_post_process(&mut events);
 
@@ -1455,6 +1459,7 @@ where
 
         let mut events = Vec::new();
         let rc = packet.reason_code();
+        let session_present = packet.session_present();
         if rc == ConnectReasonCode::Success {
             // Process properties
             for prop in packet.props() {
@@ -1510,6 +1515,9 @@ where
 
         self.status = ConnectionStatus::Connected;
 
+        if !session_present {
+            self.clear_store_related();
+        }
         events.extend(self.send_stored());
         self.send_post_process(&mut events);
 
